@@ -430,7 +430,9 @@ def _run(case, out, w):
             lo, hi = 1, 1 + m["dups"].get(r, 0)
             if m["from"] in restarted or r in restarted:
                 lo = 1
-            if not lo <= len(rec) <= hi or (not restarted and len(rec) != hi):
+            # every copy that decrypts (or is recognised as a duplicate) is acknowledged with a delivery receipt; a corrupted copy is
+            # answered with a retry request instead, and whether its re-sent copy follows depends on what the sender still holds
+            if not lo <= len(rec) <= hi or (not restarted and r not in m["corrupted"] and len(rec) != hi):
                 out.fail("receipts", "receipts:%s:delivery_receipts_%d_expected_%d" % (key_kind, len(rec), hi),
                          {"message": m["id"], "recipient": r, "dups": m["dups"].get(r, 0)})
                 return out
